@@ -77,9 +77,16 @@ def escapeChar (c : Char) : List Char :=
 
 def dumpsStr (s : String) : List Char := '"' :: (s.toList.flatMap escapeChar) ++ ['"']
 
+/-- decimal digits of a natural number (`int.__repr__`) -/
+def natDigits (n : Nat) : List Char :=
+  if n < 10 then [Char.ofNat (48 + n)] else natDigits (n / 10) ++ [Char.ofNat (48 + n % 10)]
+decreasing_by omega
+
+def intDigits (z : Int) : List Char := if z < 0 then '-' :: natDigits z.natAbs else natDigits z.natAbs
+
 mutual
 def dumpsJ : JVal → List Char
-  | .int z => (toString z).toList
+  | .int z => intDigits z
   | .flt r => r.toList
   | .str s => dumpsStr s
   | .arr l => '[' :: dumpsJs l ++ [']']
